@@ -23,7 +23,9 @@ def budget(tier):
 
 
 def strategy(tier):
-    return scenario(P)
+    from bvt.props._scen import mixed
+
+    return mixed(scenario(P), tier, ID)
 
 
 def nontrivial(F):
